@@ -141,6 +141,10 @@ def run_shard(shard, ctx):
         for r in (1, 2, 3):
             for ks in itertools.product(hk, repeat=r):
                 run_case({"kind": "handles", "parts": [[k, SIZES[(j + len(ks)) % 3]] for j, k in enumerate(ks)]}, ctx)
+        for r in (2, 3, 5):
+            for n_, ks in enumerate(itertools.product(("raw", "sparse"), repeat=r)):
+                for named in ("paths", "files"):
+                    run_case({"kind": "handles", "parts": [[k, SIZES[(j + n_) % 3]] for j, k in enumerate(ks)], "named": named}, ctx)
     elif kind == "hdd":
         # images referenced by an absolute path that exists, while a different file of the same name lies in the .hdd directory
         for types in itertools.product(("Plain", "Compressed"), repeat=2):
@@ -226,7 +230,7 @@ def run_case(case, ctx):
             elif case["kind"] == "vmdk-huge":
                 _case_vmdk_huge(case, ctx, d, buf)
             elif case["kind"] == "handles":
-                _case_handles(case, ctx, buf)
+                _case_handles(dict(case, _dir=d), ctx, buf)
             else:
                 _case_hdd(case, ctx, d, buf)
 
@@ -511,13 +515,38 @@ def _case_handles(case, ctx, buf):
         pos += sectors
         bounds.append(pos)
     disk = ConcatDisk(parts)
+    opened = []
+    if case.get("named"):
+        # the same pieces as files whose names sort differently from the declared order (by text and by number), handed over
+        # as paths or as open files
+        names = ["x-f2.vmdk", "x-f10.vmdk", "x-f1.vmdk", "tail.img", "head.img"][:len(fhs)]
+        d_ = case["_dir"]
+        paths = []
+        for nm, fh_ in zip(names, fhs):
+            with open(os.path.join(d_, nm), "wb") as f:
+                f.write(fh_.getvalue())
+            paths.append(Path(d_) / nm)
+        if case["named"] == "paths":
+            fhs = paths
+        else:
+            fhs = [open(p_, "rb") for p_ in paths]
+            opened = fhs
     try:
         v = VMDK(fhs if len(fhs) > 1 else fhs[0]) if len(fhs) == 1 else VMDK(fhs)
     except Exception as e:
         ctx.violation(case, {"subject": "vmdk.handles.open", "kind": "exception", "exc": type(e).__name__},
                       {"exception": repr(e)[:300]})
         return
-    _finish(ctx, case, v, v.read_sectors, disk, bounds[:-1], buf, "vmdk.handles", lambda: None, v.sector_count)
+    def closer():
+        for dsk in v.disks:
+            try:
+                dsk.fh.close()
+            except Exception:
+                pass
+        for f in opened:
+            f.close()
+
+    _finish(ctx, case, v, v.read_sectors, disk, bounds[:-1], buf, "vmdk.handles", closer if case.get("named") else (lambda: None), v.sector_count)
 
 
 def _case_hdd(case, ctx, d, buf):
